@@ -15,6 +15,7 @@ mod c15;
 mod c02;
 mod c14;
 mod c12;
+mod c05;
 
 use std::path::PathBuf;
 
@@ -78,6 +79,7 @@ fn main() {
         "c02" => c02::run(&args),
         "c14" => c14::run(&args),
         "c12" => c12::run(&args),
+        "c05" => c05::run(&args),
         "c06" => c06::run(&args),
         "c16" => c16::run(&args),
         "c10" => c10::run(&args),
